@@ -284,6 +284,34 @@ func reentryGuards(fn *ssa.Function) (bool, string, int) {
 	if sw == nil {
 		return false, "no switch over code.op", 0
 	}
+	// the interpreter's two state variables, found by their role so that renaming them is harmless:
+	// the local initialised from env.backtrack, and the first local declared with type error
+	btName, errName := "backtrack", "err"
+	foundBt, foundErr := false, false
+	for _, st := range fd.Body.List {
+		switch x := st.(type) {
+		case *ast.AssignStmt:
+			if x.Tok == token.DEFINE && len(x.Lhs) == len(x.Rhs) && !foundBt {
+				for i, rh := range x.Rhs {
+					if se, ok := rh.(*ast.SelectorExpr); ok && se.Sel.Name == "backtrack" {
+						if id, ok := x.Lhs[i].(*ast.Ident); ok {
+							btName, foundBt = id.Name, true
+						}
+					}
+				}
+			}
+		case *ast.DeclStmt:
+			if gd, ok := x.Decl.(*ast.GenDecl); ok && gd.Tok == token.VAR && !foundErr {
+				for _, sp := range gd.Specs {
+					if vs, ok := sp.(*ast.ValueSpec); ok && len(vs.Names) == 1 {
+						if id, ok := vs.Type.(*ast.Ident); ok && id.Name == "error" {
+							errName, foundErr = vs.Names[0].Name, true
+						}
+					}
+				}
+			}
+		}
+	}
 	isNil := func(e ast.Expr) bool { id, ok := e.(*ast.Ident); return ok && id.Name == "nil" }
 	emits := func(stmts []ast.Stmt) string {
 		what := ""
@@ -296,7 +324,7 @@ func reentryGuards(fn *ssa.Function) (bool, string, int) {
 					what = "returns a value"
 				case *ast.AssignStmt:
 					for i, l := range x.Lhs {
-						if id, ok := l.(*ast.Ident); ok && id.Name == "err" && x.Tok == token.ASSIGN {
+						if id, ok := l.(*ast.Ident); ok && id.Name == errName && x.Tok == token.ASSIGN {
 							if len(x.Rhs) == len(x.Lhs) && isNil(x.Rhs[i]) {
 								continue
 							}
@@ -314,7 +342,7 @@ func reentryGuards(fn *ssa.Function) (bool, string, int) {
 		if !ok || ifs.Init != nil || ifs.Else != nil {
 			return false
 		}
-		if id, ok := ifs.Cond.(*ast.Ident); !ok || id.Name != "backtrack" {
+		if id, ok := ifs.Cond.(*ast.Ident); !ok || id.Name != btName {
 			return false
 		}
 		if len(ifs.Body.List) == 0 {
